@@ -479,7 +479,16 @@ def rule_flow_err(ctx):
         ctx.add("FLOW-ERR", "Vampire::prove:%s" % hq.last(callee_generic(c) or "?", 2), ok, ctx.site(vp, c),
                 "fallible call %s is propagated with `?` (mapped into VampireError)" % hq.render(c)[:80])
     ctx.floor("FLOW-ERR", "vampire_fallible_calls", n, 2)
-    tf = fx.fn("try_from", impl_self="verifying::prover::vampire::VampireOutput")
+    try:
+        tf = fx.fn("try_from", impl_self="verifying::prover::vampire::VampireOutput")
+    except AnalysisGap:
+        # by role: the one function of vampire.rs that decodes the process output (it is where String::from_utf8 is called), as a TryFrom impl
+        # or as an associated function
+        cands = [b_ for b_ in getattr(fx, "all_bodies", fx.body_list) if b_["file"].endswith("verifying/prover/vampire.rs") and "::tests" not in b_["def_path"] and hq.calls(b_["body"], "String::from_utf8")]
+        own = [b_ for b_ in cands if not b_["def_path"].endswith("::prove")]      # `prove` carries a grafted copy of a helper it calls
+        if len(own) != 1:
+            raise
+        tf = own[0]
     pm = hq.parent_map(tf["body"])
     cs = hq.calls(tf["body"], "String::from_utf8")
     ctx.add("FLOW-ERR", "utf8", len(cs) == 2 and all(hq.is_try_propagated(pm, c) for c in cs), ctx.site(tf), "both from_utf8 conversions are propagated")
